@@ -133,7 +133,7 @@ func C08(p *load.Prog, r *oblig.Run) {
 	r.Explanation = "Effect/provenance analysis (E4). R08.a: from CompareNodes and every NodeDiff query method (String, IsDeepEqual, Sort, Tag, and the unexported helpers they use) no store to a structural node field " +
 		"(children/value/tag/pointer, elements of node slices) can reach an object that is reachable from the compared nodes or from the diff; the analysis is an abstract interpretation over allocation sites and " +
 		"parameter regions with call-string-free, argument-sensitive contexts. R08.b: every store into NodeDiff.Left (.Right) stores a node that stems from the left (right) input of CompareNodes - never a copy, never the other side " +
-		"(contexts are split on the constant isLeft argument). The flattening mutators LeftNode/RightNode are documented as such and are not in the read-only set; using them from a read-only operation is what R08.a reports."
+		"(contexts are split on the constant isLeft argument). The flattening mutators LeftNode/RightNode are documented as such and are not in the read-only set; using them from a read-only operation is what R08.a reports. R08.c (path rule): every path of CompareNodes calls traverse(left, true) and traverse(right, false); NodeDiff.traverse walks n.Nodes() with a complete element loop, and every feasible iteration path (flags set on the way are followed through phis) walks the child into exactly one entry - an existing one, or a new one that is stored into Children."
 	r.NotDecided = "which entry a child is matched to (depends on Equals values), that every child is represented exactly once, all-two-sidedness for deep-equal inputs, IsDeepEqual's verdict."
 	r.Assumptions = e4Assumptions()
 	r.Rule("R08.a", "computing, printing, sorting or querying a diff performs no structural write on the compared trees", 5)
@@ -147,6 +147,7 @@ func C08(p *load.Prog, r *oblig.Run) {
 		res := runPurity(p, g, root, nil, nil)
 		addPurityObligations(p, r, "R08.a", root, res, "read-only diff operation "+load.FuncName(root))
 	}
+	c08Accounts(p, r)
 	// R08.b
 	cn := roots[0]
 	a := e4.New(p, g, cn)
